@@ -301,4 +301,110 @@ theorem runQuery_cached {env : Env R Re} {s : State R Re} (q : Query) {b : Bool}
   · rw [htodo] at hk; cases hk
   all_goals (rw [hd] at hk; cases hk)
 
+/-! ### the hosts table (second stage of `MatchRequest`) -/
+
+theorem nets_append_host {acc : List (Item × R)} {idx : Idx} {r : R} :
+    nets (acc ++ [(Item.st .host idx, r)]) = nets acc := by
+  simp [nets, Item.isHost]
+
+/-- In the second stage only host entries are appended: the network rules found stay what they were at `mid`. -/
+theorem step_nets_stage2 {env : Env R Re} {s : State R Re} {t : Thread R} (hsd : Sound env t) (hst : t.stage = true)
+    (hstart : t.pc ≠ .start) : nets (step env s t).2.acc = nets t.acc := by
+  rcases t with ⟨q, pc, req, todo, acc, stage⟩
+  simp only at hst; subst hst
+  have hostPend : ∀ it, pendItem ({ q := q, pc := pc, req := req, todo := todo, acc := acc, stage := true } : Thread R) = some it →
+      ∃ idx, it = .st .host idx := by
+    intro it hit
+    have := hsd.pend_ok it hit
+    simp only [Known, if_true] at this
+    obtain ⟨idx, _, h⟩ := this
+    exact ⟨idx, h⟩
+  cases pc with
+  | start => exact absurd rfl hstart
+  | use src idx o =>
+    obtain ⟨idx', h'⟩ := hostPend (.st src idx) rfl
+    simp only [Item.st.injEq] at h'
+    obtain ⟨h1, _⟩ := h'
+    subst h1
+    simp only [step, stepG]
+    cases o with
+    | none => simp
+    | some r =>
+      simp only
+      split
+      · simp
+      · simp only [show (Src.host == Src.host) = true from rfl, if_true]
+        split
+        · simp [nets_append_host]
+        · simp
+  | prep it r =>
+    obtain ⟨idx', h'⟩ := hostPend it rfl
+    subst h'
+    have := (hsd.prep_src .host idx' r (Or.inl rfl)).2
+    simp at this
+  | rx it r =>
+    obtain ⟨idx', h'⟩ := hostPend it rfl
+    subst h'
+    have := (hsd.prep_src .host idx' r (Or.inr rfl)).2
+    simp at this
+  | seq k =>
+    obtain ⟨idx', h'⟩ := hostPend (.seq k) rfl
+    cases h'
+  | _ =>
+    simp only [step, stepG] <;> repeat' split
+    all_goals simp
+
+/-- A cached, matching host rule of the bucket is in the answer of a sequentially run DNS query whenever the
+    (possibly degraded) network rules found leave the decision to the hosts table -- in ANY fault state. -/
+theorem runQuery_cached_host {env : Env R Re} {s : State R Re} (d : DReq) {idx : Idx} {r : R}
+    (hs : SInv env s) (hq : d.hostname.isEmpty = false) (hin : (idx, r) ∈ s.cache)
+    (hcand : idx ∈ env.hcands (env.reqOf (.dns d))) (hw : env.wants .host r = true)
+    (hm : env.pre r (env.reqOf (.dns d)) = true)
+    (hb : env.basic (runQuery env s (.dns d)).2.answer.1 = false) :
+    r ∈ (runQuery env s (.dns d)).2.answer.2 := by
+  have htr := hs.1 _ _ hin
+  have hl := cacheLookup_isSome_of_mem hin
+  have hqt : (Query.dns d).trivial = false := by simpa [Query.trivial] using hq
+  have inv := runQuery_inv env
+    (fun s t => (SInv env s ∧ (cacheLookup s.cache idx).isSome) ∧ Good env s t ∧ Sound env t ∧ t.q = .dns d ∧
+      (t.stage = true → t.pc ≠ .start → env.basic (nets t.acc) = false → Track .host idx r t))
+    (fun s t h => by
+      refine ⟨⟨step_sinv h.1.1 h.2.1.1, step_lookup_isSome env s t idx h.1.2⟩, step_good h.1.1 h.2.1,
+        step_sound h.1.1 h.2.1 h.2.2.1, by rw [step_q]; exact h.2.2.2.1, fun hstage _ hbasic => ?_⟩
+      by_cases hst : t.pc = .start
+      · -- the first action leaves the thread in the first stage
+        exfalso
+        rcases t with ⟨q', pc, req, todo, acc, stage⟩
+        simp only at hst; subst hst
+        have hqq : q' = .dns d := h.2.2.2.1
+        subst hqq
+        simp only [step, stepG, hq, Bool.false_eq_true, if_false, advance_stage] at hstage
+      · have hqt' : t.q.trivial = false := by rw [h.2.2.2.1]; exact hqt
+        have hreq := h.2.1.1.req_eq hst hqt'
+        by_cases hmid : t.pc = .mid
+        · -- `mid`: the hosts table is consulted because no basic rule was found
+          rcases t with ⟨q', pc, req, todo, acc, stage⟩
+          simp only at hmid; subst hmid
+          have hqq : q' = .dns d := h.2.2.2.1
+          subst hqq
+          simp only at hreq
+          simp only [step, stepG, advance_acc] at hbasic ⊢
+          apply track_advance; right
+          simp only [Env.items2, hbasic, Bool.false_eq_true, if_false, List.mem_map]
+          exact ⟨idx, by rw [hreq]; exact hcand, rfl⟩
+        · have hstage' : t.stage = true := by rw [step_stage hst hmid] at hstage; exact hstage
+          have hn := step_nets_stage2 (s := s) h.2.2.1 hstage' hst
+          rw [hn] at hbasic
+          exact step_track h.1.1 h.2.1 h.2.2.1 h.1.2 htr hw
+            (by rw [hreq, h.2.2.2.1]; simpa [Env.verdict] using hm) hst (h.2.2.2.2 hstage' hst hbasic))
+    s (.dns d) ⟨⟨hs, hl⟩, good_init env s _, sound_init env _, rfl, fun h => by simp [Thread.init] at h⟩
+  have hd := (runQuery_good (.dns d) hs).2.2
+  have hstage := inv.2.1.1.done_stage hd (by rw [inv.2.2.2.1]; exact hqt)
+  have hk := inv.2.2.2.2 hstage (by rw [hd]; simp) hb
+  have htodo := inv.2.1.1.end_todo (Or.inr (Or.inr hd))
+  rcases hk with hk | hk | hk | hk | hk | hk
+  · exact mem_hosts.2 ⟨_, rfl, hk⟩
+  · rw [htodo] at hk; cases hk
+  all_goals (rw [hd] at hk; cases hk)
+
 end UF.Prog
